@@ -759,6 +759,12 @@ class _Interp:
     def assign(self, target: ast.AST, v: AV, st: State, node: ast.AST):
         if isinstance(target, ast.Name):
             st.env[target.id] = v
+            gl = getattr(self, "_global_names", None)
+            if gl is None:
+                gl = self._global_names = {nm for x in ast.walk(self.f.node) if isinstance(x, ast.Global) for nm in x.names}
+            if target.id in gl:
+                # `global X; X = ...` rebinds module-level state
+                self.record(("G", f"{self.f.module.name}.{target.id}", ()), "rebind", None, node)
         elif isinstance(target, (ast.Tuple, ast.List)):
             n = len(target.elts)
             if v.items is not None and len(v.items) == n and not any(isinstance(e, ast.Starred) for e in target.elts):
